@@ -161,6 +161,8 @@ def _run(case, ctx, d):
         spec.spike_templates[:] = int(rng.integers(0, spec.n_templates))
         spec.spike_clusters = spec.spike_templates.copy()
         case = dict(case, ops=[o for o in case['ops'][1:]])
+    if case['seed'][-1] % 3 == 2:
+        spec.notes['raw_symlink'] = True         # raw files reached through symbolic links
     wide_ids = opts.get('dtype_ids') == 'uint16'
     ops = case['ops'] if case['ops'] is not None else rand_ops(rng)
     ops = [list(o) for o in ops] + [['reload']]
